@@ -118,6 +118,7 @@ class Exec:
         self.obligs = []           # emitted side obligations
         self.timeout_ms = timeout_ms
         self.inlined = set()       # qualnames executed inline
+        self.undeclared_fields = set()
         self.consts_seen = {}      # qualified module/class constant -> ast dump (part of the unit's fingerprint)
         self.node_kinds = set()
         self.unit = None           # qualname of the unit under verification
